@@ -60,18 +60,22 @@ def build_state(kind: str, history: list[tuple], clock: vclock.VClock, inconsist
     from pynenc.invocation.status import InvocationStatus as S
 
     app = apps.make_app(kind, min_size_to_cache=1024)
-    t = {"ident": app.task(tasks.ident), "other": app.task(tasks.other), "keyed": app.task(tasks.keyed, max_retries=1)}
+    t = {"ident": app.task(tasks.ident), "other": app.task(tasks.other), "keyed": app.task(tasks.keyed, max_retries=1), "creds": app.task(tasks.creds)}
     context.set_runner_context(app.app_id, apps.rctx("CLIENT"))
     context.set_current_app(app)
     info: dict[str, Any] = {"ids": [], "runners": [], "calls": [], "workflow_types": set(), "tasks": [x.task_id.key for x in t.values()]}
     A, B = apps.rctx("runner-A"), apps.rctx("runner-B")
     n = 0
     # every state has a runner that fell silent two hours ago and one finished invocation with a large list result
-    for op, arg in [("heartbeat", 1), ("advance", 7200), ("run", 0)] + list(history):
+    for op, arg in [("heartbeat", 1), ("advance", 7200), ("run", 0), ("creds", 0)] + list(history):
         n += 1
         clock.advance(arg if op == "advance" else 1.0)
         if op == "submit":
             inv = t[["ident", "other", "keyed"][arg % 3]](n)
+            info["ids"].append(inv.invocation_id)
+            info["calls"].append(inv.call.call_id.key)
+        elif op == "creds":
+            inv = t["creds"](f"tok-{n}", "hunter2", "plain note")
             info["ids"].append(inv.invocation_id)
             info["calls"].append(inv.call.call_id.key)
         elif op == "batch":
